@@ -513,26 +513,41 @@ where
     }
 }
 
-/// all points of a toy curve over a prime field (brute force over x, y through the generic `Field` API)
+/// every element of a small field (prime or extension): index digits in base p are the prime-field coordinates
+fn all_field_elems<F: Field>() -> Vec<F> {
+    let p: u64 = big(F::characteristic()).to_u64_digits()[0];
+    let d = F::extension_degree() as u32;
+    let n = p.checked_pow(d).filter(|n| *n < (1 << 17)).expect("field small enough to enumerate");
+    (0..n)
+        .map(|mut i| {
+            let coords: Vec<F::BasePrimeField> = (0..d)
+                .map(|_| {
+                    let c = F::BasePrimeField::from(i % p);
+                    i /= p;
+                    c
+                })
+                .collect();
+            F::from_base_prime_field_elems(coords).expect("degree-many coordinates")
+        })
+        .collect()
+}
+
+/// all points of a toy curve over a small prime or extension field (brute force over x, y through the generic `Field` API)
 fn enumerate_sw<P: SWCurveConfig>() -> Vec<Sw<P::BaseField>> {
-    let p = big(P::BaseField::characteristic());
-    let p: u64 = p.to_u64_digits()[0];
-    assert!(P::BaseField::extension_degree() == 1 && p < (1 << 16));
+    let els = all_field_elems::<P::BaseField>();
     let (a, b) = (P::COEFF_A, P::COEFF_B);
     let mut out = vec![Sw::Inf];
     // squares table
     let mut roots: std::collections::BTreeMap<Vec<u64>, Vec<P::BaseField>> = std::collections::BTreeMap::new();
     let key = |x: &P::BaseField| -> Vec<u64> { x.to_base_prime_field_elements().map(|c| c.into_bigint().as_ref()[0]).collect() };
-    for yi in 0..p {
-        let y = P::BaseField::from(yi);
-        roots.entry(key(&y.square())).or_default().push(y);
+    for y in &els {
+        roots.entry(key(&y.square())).or_default().push(*y);
     }
-    for xi in 0..p {
-        let x = P::BaseField::from(xi);
+    for x in &els {
         let rhs = x.square() * x + a * x + b;
         if let Some(ys) = roots.get(&key(&rhs)) {
             for y in ys {
-                out.push(Sw::Aff(x, *y));
+                out.push(Sw::Aff(*x, *y));
             }
         }
     }
@@ -1009,6 +1024,14 @@ fn relations(tier: Tier) -> Vec<Rel> {
         };
     }
     vh_core::for_each_toy_sw!(toysw);
+    // toy curves over the extension fields F_49 / F_343: y-coordinates with a zero top coefficient (partial sign
+    // ties), coordinates in proper subfields, a = 0 over a cubic extension - all points, all modes
+    macro_rules! toyswext {
+        ($cfg:ty, $name:expr, $count:expr, $h:expr, $r:expr) => {
+            sw_rels::<$cfg>(&mut out, concat!("toy.", $name), tier, 1, true);
+        };
+    }
+    vh_core::for_each_toy_sw_ext!(toyswext);
     macro_rules! toyte {
         ($cfg:ty, $name:expr, $p:expr, $a:expr, $d:expr, $h:expr, $r:expr, $complete:expr, $big:expr) => {
             te_rels::<$cfg>(&mut out, concat!("toy.", $name), tier, 1, true);
@@ -1021,7 +1044,7 @@ fn relations(tier: Tier) -> Vec<Rel> {
 fn main() {
     vh_core::engine::main(PropSpec {
         id: "C09",
-        rule: "Field values come from the edge-biased tower generator (0, 1, p-1, (p±1)/2, R, 2^k±1, edge limbs, uniform; sparse/dense extension elements) over 32 zoo prime fields (0..7 spare bits in the top byte, 1..13 limbs, ten moduli of exactly 8k bits), 14 towers (two harness Fp2 over moduli without spare bits) and are (de)serialized with EmptyFlags, SWFlags, TEFlags, harness flags of 1..8 bits and a restrictive 3-bit flag type. Curve points: identity, generator, sums of multiples of G, points decompressed from edge x (resp. y), x=0 / y=0 / 2-torsion / out-of-subgroup points, affine and projective with Z != 1, on 32 shipped SW and 10 shipped TE configurations; every point of 9+6 toy curves x 3 representations exhaustively. Uniqueness inputs are derived from an encoding produced by the harness' own encoder: + k p, exactly p, one unused high bit, stray bits in the extra flag byte, invalid flag pattern, bit flip, uniform bytes. Oracles: decode(encode(v)) == v through raw coordinates in all four modes (checked modes only for points known to be in the subgroup), len == serialized_size == (un)compressed_size, flags returned; Ok((v,f)) => serialize_with_flags(v,f) == input byte for byte. Non-trivial: value not in {0, 1, identity, generator}, or an input that differs from the valid encoding; distinct = distinct decoded choice sequences.",
+        rule: "Field values come from the edge-biased tower generator (0, 1, p-1, (p±1)/2, R, 2^k±1, edge limbs, uniform; sparse/dense extension elements) over 32 zoo prime fields (0..7 spare bits in the top byte, 1..13 limbs, ten moduli of exactly 8k bits), 14 towers (two harness Fp2 over moduli without spare bits) and are (de)serialized with EmptyFlags, SWFlags, TEFlags, harness flags of 1..8 bits and a restrictive 3-bit flag type. Curve points: identity, generator, sums of multiples of G, points decompressed from edge x (resp. y), x=0 / y=0 / 2-torsion / out-of-subgroup points, affine and projective with Z != 1, on 32 shipped SW and 10 shipped TE configurations; every point of 11+7 toy curves over prime fields (incl. the 8-bit prime 251, whose flags need an extra byte) and of 4 toy curves over F_49 / F_343 x 3 representations exhaustively. Uniqueness inputs are derived from an encoding produced by the harness' own encoder: + k p, exactly p, one unused high bit, stray bits in the extra flag byte, invalid flag pattern, bit flip, uniform bytes. Oracles: decode(encode(v)) == v through raw coordinates in all four modes (checked modes only for points known to be in the subgroup), len == serialized_size == (un)compressed_size, flags returned; Ok((v,f)) => serialize_with_flags(v,f) == input byte for byte. Non-trivial: value not in {0, 1, identity, generator}, or an input that differs from the valid encoding; distinct = distinct decoded choice sequences.",
         assumptions: &[
             "the byte layout used to build mutated inputs (little-endian coefficients of ceil(bits/8) bytes, the last one of ceil((bits+flag bits)/8) bytes with the flags in its top bits) is the documented one; a mismatch with serialized_size_with_flags is reported as size.layout",
             "points used in checked modes are multiples of the generator computed with a reference double-and-add over Projective::double_in_place/+= (C03's subject)",
